@@ -1,5 +1,5 @@
 use core::fmt;
-use std::{cell::RefCell, collections::HashMap};
+use std::{cell::RefCell, cmp::Ordering, collections::HashMap};
 
 use crate::{
     ink_list_item::InkListItem, list_definition::ListDefinition,
@@ -66,11 +66,19 @@ impl InkList {
         ink_list
     }
 
+    // Order between items that have the same value: origin name, then item name.
+    // Makes every result that picks or orders items independent of the map's iteration order.
+    fn name_order(a: &InkListItem, b: &InkListItem) -> Ordering {
+        a.get_origin_name()
+            .cmp(&b.get_origin_name())
+            .then_with(|| a.get_item_name().cmp(b.get_item_name()))
+    }
+
     fn get_ordered_items(&self) -> Vec<(&InkListItem, &i32)> {
         let mut ordered: Vec<_> = self.items.iter().collect();
         ordered.sort_by(|a, b| {
             if a.1 == b.1 {
-                a.0.get_origin_name().cmp(&b.0.get_origin_name())
+                Self::name_order(a.0, b.0)
             } else {
                 a.1.cmp(b.1)
             }
@@ -82,7 +90,11 @@ impl InkList {
         let mut max: Option<(&InkListItem, i32)> = None;
 
         for (k, v) in &self.items {
-            if max.is_none() || *v > max.as_ref().unwrap().1 {
+            if max.is_none()
+                || *v > max.as_ref().unwrap().1
+                || (*v == max.as_ref().unwrap().1
+                    && Self::name_order(k, max.as_ref().unwrap().0) == Ordering::Greater)
+            {
                 max = Some((k, *v));
             }
         }
@@ -94,7 +106,11 @@ impl InkList {
         let mut min: Option<(&InkListItem, i32)> = None;
 
         for (k, v) in &self.items {
-            if min.is_none() || *v < min.as_ref().unwrap().1 {
+            if min.is_none()
+                || *v < min.as_ref().unwrap().1
+                || (*v == min.as_ref().unwrap().1
+                    && Self::name_order(k, min.as_ref().unwrap().0) == Ordering::Less)
+            {
                 min = Some((k, *v));
             }
         }
